@@ -109,15 +109,34 @@ Definition dyn_readable (c : cls) (s : inst) (n lo hi : Z) : option pv :=
 (* the readable value is reported under the pseudo-name n + 2000 *)
 Definition rname (n : Z) : Z := n + 2000.
 
+(* ---------- Enum(values='<name>') (BaseEnum._validate / _get, trait_types.py:2168-2189) ---------- *)
+Definition dyn_enum (coll : option pv) (v : pv) : vres :=
+  match coll with
+  | Some (PList items) => if py_in v items then Accept v else Reject      (* safe_contains(value, xgetattr(object, name)) *)
+  | _ => Reject
+  end.
+(* what READING it yields: the cached value (else the default) if it is a member of the collection AS IT IS NOW,
+   otherwise the first member (None for an empty collection) *)
+Definition dyn_enum_readable (c : cls) (s : inst) (n src : Z) : option pv :=
+  match read c s src with
+  | Some (PList items) =>
+      match read c s n with
+      | Some v0 => Some (if py_in v0 items then v0 else match items with x :: _ => x | [] => PNone end)
+      | None => None
+      end
+  | _ => None
+  end.
+
 (* validation with access to the instance *)
 Definition validate_s (E : env) (c : cls) (s : inst) (d : desc) (v : pv) : vres :=
   match d with
   | DRangeDyn lo hi mask => dyn_range (read c s lo) (read c s hi) mask v
+  | DEnumDyn src => dyn_enum (read c s src) v
   | _ => validate E d v
   end.
 (* property-like traits are always validated: no Undefined bypass *)
 Definition always_validated (d : desc) : bool :=
-  match d with DProperty _ | DRangeDyn _ _ _ => true | _ => false end.
+  match d with DProperty _ | DRangeDyn _ _ _ | DEnumDyn _ => true | _ => false end.
 
 (* setattr_trait, ctraits.c:2445-2553: validate; when the trait has a post_setattr and the name is not
    in the dictionary yet, the default is materialised first (stored, post_setattr called on it);
